@@ -15,7 +15,7 @@ import puan_rspy as pr
 TARGET = "puan.ndarray"
 CONTRACTS = {
     # ---- id / position bridges (C20) -----------------------------------------------------------------------
-    "variable_ndarray.__new__": {"props": ["C17", "C20"], "why": "array view + variables (columns) + index (rows); shape must agree"},
+    "variable_ndarray.__new__": {"props": ["C01", "C11", "C17", "C19", "C20"], "why": "array view + variables (columns) + index (rows); shape must agree"},
     "variable_ndarray._default_variable_list": {"props": ["C20"], "why": "support variable first (if any column), then boolean variables 1..n-1"},
     "variable_ndarray.__array_finalize__": {"props": ["C17"], "why": "views / copies carry variables and index"},
     "variable_ndarray.variable_indices": {"props": ["C20"], "cases": ["variable_dtype == puan.Dtype.BOOL"],
@@ -24,7 +24,7 @@ CONTRACTS = {
     "variable_ndarray.integer_variable_indices": {"props": ["C20"], "why": "= variable_indices(INT)"},
     "variable_ndarray.construct": {"props": ["C14", "C15", "C20"],
                                    "why": "per column: given value, else callable default, else lower bound (int dtype) / nan"},
-    "ge_polyhedron.__new__": {"props": ["C20", "C17"], "why": "forwards to variable_ndarray.__new__"},
+    "ge_polyhedron.__new__": {"props": ["C01", "C11", "C17", "C19", "C20"], "why": "forwards to variable_ndarray.__new__"},
     "ge_polyhedron.A": {"props": ["C01", "C11", "C12", "C14", "C15", "C19", "C20"],
                         "why": "matrix without column 0, variables without variables[0], same index"},
     "ge_polyhedron.b": {"props": ["C01", "C11", "C12", "C15", "C19", "C20"], "why": "column 0"},
@@ -57,7 +57,7 @@ CONTRACTS = {
     "integer_ndarray.ranking": {"props": ["C13"], "why": "dense ranking loop"},
     "integer_ndarray.ndint_compress": {"props": ["C13", "C14"], "why": "method dispatch, batch recursion, closed forms, shadow gather/scatter"},
     # ---- configurator polyhedron (C14/C15/C17) ----------------------------------------------------------------
-    "ge_polyhedron_config.__new__": {"props": ["C14", "C17"], "why": "default prio vector attached; default -1 per A column"},
+    "ge_polyhedron_config.__new__": {"props": ["C14", "C15", "C17"], "why": "default prio vector attached; default -1 per A column"},
     "ge_polyhedron_config._vectors_from_prios": {"props": ["C14", "C15"],
                                                  "why": "per request [default row, user row (0 where unnamed)] stacked in that order, shadow-compressed on axis 0"},
     "ge_polyhedron_config.select": {"props": ["C15"], "why": "objectives over A columns; solver gets the full polyhedron; ids zipped with solution; None -> {}; exceptions -> InfeasibleError"},
